@@ -146,7 +146,7 @@ func checkC01(p *Prog, c *Check) {
 			if spec.will == 1 {
 				wp = will
 			}
-			if spec.will == 3 {
+			if spec.will == 3 || spec.will == 1 && spec.bias > 0 {
 				wp, _ = p.willFor(spec)
 			}
 			st, why := p.buildStateSpec(tn, spec, nil, wp)
@@ -294,6 +294,8 @@ func checkC01(p *Prog, c *Check) {
 		}
 	}
 	p.checkCodecPairing(c)
+	c.Rule("R1.6", "adders: every exported Add* method, evaluated on its own with abstract elements and — for integers — every boundary value of the domain, appends what it is given, in order, to what the matching accessor or exported list field returned before; a second call keeps the first call's elements (the round trip cannot see a value that is dropped before it is ever stored)")
+	checkAdders(p, c)
 	p.widthAgreement(c, "R1.4")
 	c.Measured["abstract_states"] = nstates
 	c.Floor("packet types co-simulated", len(names), 15, "15 MQTT packet types")
@@ -796,4 +798,179 @@ func (p *Prog) widthAgreement(c *Check, rule string) {
 		}
 	}
 	c.Floor("wire types with width()", n, 6, "byte, u16, u32, variable byte integer, length-prefixed data and user property at least")
+}
+
+// checkAdders (R1.6): the round trip compares the decoded packet with the original — an adder that silently drops
+// a value inside its domain (or replaces the list instead of extending it) leaves both sides equal.  So every
+// exported Add* method is evaluated on its own: after the call the elements passed are visible, in order, at the
+// end of what some accessor (or exported list field) returned before, and a second call keeps the first call's
+// elements in front of its own.
+func checkAdders(p *Prog, c *Check) {
+	nadd := 0
+	for _, tn := range packetTypeNames() {
+		obj := p.Pkg.Scope().Lookup(tn)
+		if obj == nil {
+			continue
+		}
+		nt := obj.Type().(*types.Named)
+		for _, s := range p.settersOf(nt) {
+			if !strings.HasPrefix(s.Name(), "Add") || s.Signature.Params().Len() != 1 {
+				continue
+			}
+			nadd++
+			cons := "(*" + tn + ")." + s.Name()
+			pos := p.Pos(s.Pos())
+			pt := s.Signature.Params().At(0).Type()
+			st0, why := p.buildState(tn, func(string) int { return -1 }, nil)
+			if st0 == nil {
+				c.Unk("R1.6", cons, pos, "cannot build the empty state: "+why)
+				continue
+			}
+			obs0, why := p.observe(tn, st0.Recv, st0.Mem, st0.Maps, 0)
+			if why != "" {
+				c.Unk("R1.6", cons, pos, why)
+				continue
+			}
+			// argument sets: two calls; for integer adders every boundary of the C01 domain as the first value
+			type callArgs struct {
+				desc string
+				mk   func(ctx *symCtx, call int) (sv, []string, bool) // the argument and the rendering of its elements
+			}
+			var sets []callArgs
+			elemsOf := func(ctx *symCtx, a sv) []string {
+				var out []string
+				if sl, ok := pt.Underlying().(*types.Slice); ok && !isByteSlice(pt) {
+					for k := int64(0); k < a.i; k++ {
+						ep := fmt.Sprintf("%s[%d]", a.addr, a.off+k)
+						ev, ok := ctx.read(ep, sl.Elem())
+						if !ok {
+							continue
+						}
+						if ev.k == 'S' && ev.addr == "" {
+							ev.addr = ep
+						}
+						out = append(out, p.readDeep(ctx, ev, sl.Elem(), 0))
+					}
+					return out
+				}
+				return []string{p.readDeep(ctx, a, pt, 0)}
+			}
+			if bt, ok := pt.Underlying().(*types.Basic); ok && bt.Info()&types.IsInteger != 0 {
+				bits := uint(p.U.Sizes.Sizeof(bt) * 8)
+				max := int64(1)<<62 - 1
+				if bits < 63 {
+					max = int64(1)<<bits - 1
+					if bt.Info()&types.IsUnsigned == 0 {
+						max = int64(1)<<(bits-1) - 1
+					}
+				}
+				vals := []int64{1, 2, 127, 128, 255, 256, 65535, 65536, 0xFFFFFF, 0x1000000, 268435454, 268435455}
+				if strings.Contains(s.Name(), "ReasonCode") {
+					vals = []int64{0, 1, 2, 0x10, 0x7F, 0x80, 0x81, 0xA2, 0xFF}
+				}
+				for _, v := range vals {
+					v := v
+					if v > max {
+						continue
+					}
+					sets = append(sets, callArgs{fmt.Sprint(v), func(ctx *symCtx, call int) (sv, []string, bool) {
+						a := sv{k: 'i', i: v}
+						if call == 1 {
+							a.i = (v % 100) + 3 // the second call adds another value
+						}
+						return a, []string{fmt.Sprint(a.i)}, true
+					}})
+				}
+			} else {
+				for _, variant := range []int{0, 1} {
+					variant := variant
+					sets = append(sets, callArgs{fmt.Sprintf("abstract elements (variant %d)", variant), func(ctx *symCtx, call int) (sv, []string, bool) {
+						a, ok := p.abstractArg(ctx, fmt.Sprintf("%s·%d", s.Name(), call), pt, variant+2*call)
+						if !ok {
+							return sv{}, nil, false
+						}
+						return a, elemsOf(ctx, a), true
+					}})
+				}
+			}
+			bad, unk := "", ""
+			neval := 0
+			for _, set := range sets {
+				if bad != "" || unk != "" {
+					break
+				}
+				ctx := p.newSym(p.globalInput())
+				for k, v := range st0.Mem {
+					ctx.mem[k] = v
+				}
+				for k, v := range st0.Maps {
+					ctx.maps[k] = v
+				}
+				prev := obs0
+				var firstElems []string
+				for call := 0; call < 2 && bad == "" && unk == ""; call++ {
+					a, elems, ok := set.mk(ctx, call)
+					if !ok {
+						unk = "no abstract argument for " + typeStr(pt)
+						break
+					}
+					if _, ok := ctx.evalPure(s, []sv{{k: 'p', addr: st0.Recv}, a}, nil, 0); !ok {
+						unk = fmt.Sprintf("cannot evaluate %s(%s): %s", s.Name(), set.desc, ctx.why)
+						break
+					}
+					neval++
+					obs, why := p.observe(tn, st0.Recv, ctx.mem, ctx.maps, 0)
+					if why != "" {
+						unk = why
+						break
+					}
+					// an accessor whose value changed and now ends with the elements passed, in order
+					found := false
+					var changed []string
+					for k, v := range obs {
+						if v == prev[k] {
+							continue
+						}
+						changed = append(changed, k)
+						at := 0
+						okE := true
+						for _, e := range append(append([]string(nil), firstElems...), elems...) {
+							j := strings.Index(v[at:], e)
+							if j < 0 {
+								okE = false
+								break
+							}
+							at += j + len(e)
+						}
+						// what was there before stays in front
+						pre := strings.TrimSuffix(prev[k], "]")
+						if okE && (call == 0 || strings.HasPrefix(v, pre)) {
+							found = true
+						}
+					}
+					sort.Strings(changed)
+					switch {
+					case len(changed) == 0:
+						bad = fmt.Sprintf("%s(%s), call %d: no accessor or exported field shows any change — the value is dropped", s.Name(), strings.Join(elems, ", "), call+1)
+					case !found:
+						bad = fmt.Sprintf("%s(%s), call %d: %v changed, but none now holds what was there before followed by the elements passed (in order)", s.Name(), strings.Join(elems, ", "), call+1, changed)
+					}
+					if call == 0 {
+						firstElems = elems
+					}
+					prev = obs
+				}
+			}
+			switch {
+			case unk != "":
+				c.Unk("R1.6", cons, pos, unk)
+			case bad != "":
+				c.Bad("R1.6", cons, pos, bad)
+			default:
+				c.OK("R1.6", cons, pos, fmt.Sprintf("%d evaluation(s) over %d argument set(s): what is passed is appended, in order, to what was there", neval, len(sets)))
+			}
+		}
+	}
+	c.Measured["adders_checked"] = nadd
+	c.Floor("exported adders", nadd, 5, "user properties, subscription identifiers, filters, reason codes")
 }
